@@ -510,6 +510,8 @@ namespace {
   value_t fn_any(call_scope_t& args)
   {
     post_t& post(args.context<post_t>());
+    if (args.empty())
+      throw_(std::runtime_error, _("Too few arguments to function"));
     expr_t::ptr_op_t expr(args.get<expr_t::ptr_op_t>(0));
 
     foreach (post_t * p, post.xact->posts) {
@@ -523,6 +525,8 @@ namespace {
   value_t fn_all(call_scope_t& args)
   {
     post_t& post(args.context<post_t>());
+    if (args.empty())
+      throw_(std::runtime_error, _("Too few arguments to function"));
     expr_t::ptr_op_t expr(args.get<expr_t::ptr_op_t>(0));
 
     foreach (post_t * p, post.xact->posts) {
